@@ -8,5 +8,4 @@ git -C /repo worktree add -q "$B/repo" -b "ag-$N" 2>/dev/null || git -C /repo wo
 cd "$B/verif"
 sed -i "s|/repo/crates/|$B/repo/crates/|g" harness/Cargo.toml
 git update-index --skip-worktree harness/Cargo.toml
-cp /repo/Cargo.lock harness/Cargo.lock 2>/dev/null || true
 echo "$B"
